@@ -33,11 +33,11 @@ type c10End struct {
 
 func c10(tier string) []*explore.Scenario {
 	var out []*explore.Scenario
-	sets := []string{"", "o", "U", "R", "X", "S", "oU", "UR", "RX", "oS", "URX", "UU", "RR", "Z", "ZR", "oZ"}
+	sets := []string{"", "o", "U", "R", "X", "S", "oU", "UR", "RX", "oS", "URX", "UU", "RR", "Z", "ZR", "oZ", "T", "D", "TD", "UT", "DX"}
 	// more blocked unary handlers than the pool has workers (8): the 9th/10th request waits in the read loop
 	sets = append(sets, "UUUUUUUUU", "UUUUUUUUUU", "UUUUUUUUUo", "UUUUUUUUUR")
 	// the statement's full range (8 unary and 8 streaming handlers in flight), default schedule
-	sets = append(sets, "UUUUUUUU", "RRRRRRRR", "XXXXSSSS", "UUUUUUUURRRRRRRR", "RRRRRRRRUUUUUUUU", "URXSURXSURXSURXS")
+	sets = append(sets, "UUUUUUUU", "RRRRRRRR", "XXXXSSSS", "UUUUUUUURRRRRRRR", "RRRRRRRRUUUUUUUU", "URXSURXSURXSURXS", "TTTTDDDD")
 	if tier == "thorough" {
 		sets = append(sets, "UURR", "oURXS")
 	}
@@ -53,7 +53,7 @@ func c10(tier string) []*explore.Scenario {
 		if tier == "thorough" && len(set) <= 2 {
 			bound = 2
 		}
-		if strings.Count(set, "U")+strings.Count(set, "o") >= 9 {
+		if strings.Count(set, "U")+strings.Count(set, "o")+strings.Count(set, "T") >= 9 {
 			// above the pool's size the read loop is parked handing the 9th request to a
 			// worker: it does not read (so no read can fail) and nothing is written; the
 			// one end that can happen there is Stop, once the 9 requests are in
@@ -200,9 +200,9 @@ func c10TwoConns(end string, bound int) *explore.Scenario {
 
 func c10Reqs(c rune) int {
 	switch c {
-	case 'o', 'U':
+	case 'o', 'U', 'T':
 		return 1
-	case 'R', 'X', 'S':
+	case 'R', 'X', 'S', 'D':
 		return 1
 	case 'Z':
 		return 2
@@ -249,6 +249,20 @@ func c10One(set string, end c10End, bound int) *explore.Scenario {
 						return "late", nil
 					}
 					script = append(script, env.ReqUnary(id, tag, "x"))
+				case 'T':
+					// a unary call that carries a deadline (and metadata): blocked on its context like U
+					r := w.Rec(tag, "Unary")
+					recs = append(recs, r)
+					w.Unaries[tag] = func(r *env.Rec, ctx context.Context, in string) (string, error) {
+						select {
+						case <-ctx.Done():
+						case <-release:
+						}
+						return "late", nil
+					}
+					req := env.ReqUnary(id, tag, "x")
+					req.Header.Headers = append(req.Header.Headers, kv("GRPC-Timeout", "1H"), kv("x-k", "v"))
+					script = append(script, req)
 				case 'Z':
 					r := w.Rec(tag, "Bidi")
 					recs = append(recs, r)
@@ -258,7 +272,7 @@ func c10One(set string, end c10End, bound int) *explore.Scenario {
 						return status.Error(codes.Canceled, "reset")
 					}
 					script = append(script, env.ReqOpen(id, env.MBidi, tag), env.ReqReset(id, env.MBidi))
-				case 'R', 'X', 'S':
+				case 'R', 'X', 'S', 'D':
 					r := w.Rec(tag, "Bidi")
 					recs = append(recs, r)
 					mode := c
@@ -282,7 +296,11 @@ func c10One(set string, end c10End, bound int) *explore.Scenario {
 						}
 						return status.Error(codes.Aborted, "handler released")
 					}
-					script = append(script, env.ReqOpen(id, env.MBidi, tag))
+					open := env.ReqOpen(id, env.MBidi, tag)
+					if c == 'D' { // a stream that carries a deadline (and metadata): blocked on its context like X
+						open.Header.Headers = append(open.Header.Headers, kv("grpc-timeout", "1H"), kv("x-k", "v"))
+					}
+					script = append(script, open)
 				}
 			}
 			vsched.Settle()
